@@ -1380,6 +1380,7 @@ func laws06(r *Run, c case06, ob buildObs06) {
 		if !x.secret {
 			for _, l := range chainOf06(t) {
 				if l.RefName == x.orig {
+					r.Count("oracle", "refs-checked")
 					for _, ref := range ob.refs {
 						if ref != got.Name {
 							viol("refs_follow", "reference-not-updated", fmt.Sprintf("Deployment refers to %q, the ConfigMap is %q", ref, got.Name))
@@ -1437,6 +1438,7 @@ func metamorphic06(r *Run, rng *Rng, c case06, ob buildObs06) {
 	}
 	ob2 := execBuild06(t2)
 	r.AddEval("meta-a", true)
+	r.Count("oracle", "metamorphic-metadata")
 	names := func(o buildObs06) []string {
 		var out []string
 		for _, x := range o.objs {
@@ -1469,6 +1471,7 @@ func metamorphic06(r *Run, rng *Rng, c case06, ob buildObs06) {
 	target.Literals = append(target.Literals, "zzfresh=1")
 	ob3 := execBuild06(t3)
 	r.AddEval("meta-b", true)
+	r.Count("oracle", "metamorphic-data-change")
 	if ob3.cls != ClsOk {
 		r.Violation(OracleViolation{Law: "fresh_name", Class: "added-entry-breaks-build", Detail: ob3.msg, Replay: case06{Kind: "build", Tree: t3}})
 		return
